@@ -1,10 +1,10 @@
 SPECIFICATION Spec
 CONSTANTS
   Bodies = {"A", "B", "C"}
-  Invalidate = {"tetrahedra_points", "com", "aabb_tree"}
+  Invalidate = {"tetrahedra_points", "com", "aabbs", "aabb_tree"}
   Cached = {"tetrahedra_points", "com", "aabbs", "aabb_tree"}
   FrameCopy = TRUE
-  DetailsFirst = FALSE
+  DetailsFirst = TRUE
   TreeRule = "none"
   MaxCalls = 3
   MaxMoves = 1
